@@ -116,13 +116,14 @@ func BuildWorkspace(ctx context.Context, ws *protogen.Workspace) (bufimage.Image
 
 // Ann is a flattened annotation.
 type Ann struct {
-	Path    string `json:"path"`
-	Line    int    `json:"line"`
-	Col     int    `json:"col"`
-	EndLine int    `json:"end_line"`
-	EndCol  int    `json:"end_col"`
-	Type    string `json:"type"`
-	Message string `json:"message"`
+	Path     string `json:"path"`
+	External string `json:"external,omitempty"`
+	Line     int    `json:"line"`
+	Col      int    `json:"col"`
+	EndLine  int    `json:"end_line"`
+	EndCol   int    `json:"end_col"`
+	Type     string `json:"type"`
+	Message  string `json:"message"`
 }
 
 func (a Ann) String() string {
@@ -144,6 +145,7 @@ func Annotations(err error) ([]Ann, error) {
 		a := Ann{Line: fa.StartLine(), Col: fa.StartColumn(), EndLine: fa.EndLine(), EndCol: fa.EndColumn(), Type: fa.Type(), Message: fa.Message()}
 		if fi := fa.FileInfo(); fi != nil {
 			a.Path = fi.Path()
+			a.External = fi.ExternalPath()
 		}
 		out = append(out, a)
 	}
@@ -154,4 +156,3 @@ func Annotations(err error) ([]Ann, error) {
 func SortAnns(a []Ann) {
 	sort.Slice(a, func(i, j int) bool { return a[i].String() < a[j].String() })
 }
-
